@@ -33,10 +33,12 @@ type c15FanClient struct {
 type c15FanPub struct {
 	Topic string `json:"topic"`
 	Qos   int    `json:"qos"`
+	Dist  bool   `json:"dist,omitempty"` // posted with distributed=true (no transfer to other members)
 }
 
 type c15FanIn struct {
-	Clients []c15FanClient `json:"clients"`
+	MemberURL string         `json:"memberurl,omitempty"` // lookup of the other members: "" none | "err" fails | "dead" unreachable member
+	Clients   []c15FanClient `json:"clients"`
 	Pubs    []c15FanPub    `json:"pubs"`
 }
 
@@ -72,6 +74,7 @@ func c15RunFan(in c15FanIn) (obs c15FanObs) {
 		}
 	}()
 	env := c15NewEnv(false, nil)
+	env.memberMode = in.MemberURL
 	defer env.closeInto(&obs.Bad)
 	live := map[string]*c15Cli{}
 	// phase 1: everybody connects and subscribes
@@ -153,7 +156,7 @@ func c15RunFan(in c15FanIn) (obs c15FanObs) {
 			break
 		}
 		payload := fmt.Sprintf("m%d", i)
-		if code := env.httpPublish(p.Topic, p.Qos, payload); code != 200 {
+		if code := env.httpPublishDist(p.Topic, p.Qos, payload, p.Dist); code != 200 {
 			obs.Bad = append(obs.Bad, fmt.Sprintf("publish %d: http %d", i, code))
 		}
 		if !c15Quiesce(env.open) {
@@ -197,6 +200,9 @@ func c15GenFan(r *vfRand, adv bool) c15FanIn {
 	}
 	for i := 0; i < n; i++ {
 		c := c15FanClient{Cid: fmt.Sprintf("c%d", i)}
+		if i > 0 && i <= len(c15Ids) && r.Chance(1, 3) {
+			c.Cid = c15Ids[(i+r.Intn(3))%len(c15Ids)] + fmt.Sprintf("~%d", i)
+		}
 		k := r.Range(1, 3)
 		used := map[string]bool{}
 		for j := 0; j < k; j++ {
@@ -270,6 +276,7 @@ func c15GenFan(r *vfRand, adv bool) c15FanIn {
 		in.Clients[0].Subs = []c15Sub{{F: r.PickStr("a/b", "a/+", "#"), Q: 0}}
 		in.Clients[0].Gone = false
 	}
+	in.MemberURL = r.PickStr("", "", "", "err", "err", "dead")
 	np := r.Range(1, 3)
 	for i := 0; i < np; i++ {
 		t := c15Topics[r.Intn(len(c15Topics))]
@@ -285,7 +292,7 @@ func c15GenFan(r *vfRand, adv bool) c15FanIn {
 		if r.Chance(1, 25) {
 			q = 2
 		}
-		in.Pubs = append(in.Pubs, c15FanPub{Topic: t, Qos: q})
+		in.Pubs = append(in.Pubs, c15FanPub{Topic: t, Qos: q, Dist: r.Chance(1, 3)})
 	}
 	return in
 }
